@@ -129,7 +129,8 @@ def sortVals (less : Val → Val → Bool) (xs : List Val) : List Val :=
 
 /-- items `(key, value?)` that `IterateOrder` visits -/
 def iterItems (v : Val) (reversed sorted : Bool) : List (Val × Option Val) :=
-  match v.resolved with
+  -- reflect sees through a named type: a string-kinded Stringer iterates its underlying string
+  match v.reflected with
   | .smap _ kvs =>
     let ks := kvs.map (fun kv => Val.str kv.1)
     let ks := if sorted then (if reversed then sortVals (fun a c => valLess c a) ks else sortVals valLess ks) else ks
@@ -325,6 +326,15 @@ def spacelessFix : Nat → Bytes → Bytes
     if s2 == s then s else spacelessFix fuel s2
 
 def spaceless (s : Bytes) : Bytes := spacelessFix (s.length + 1) s
+
+/-! ### the escape-on-output decision (`nodeVariable.Execute`, `writeCycleValue`) -/
+
+/-- the bytes `{{ e }}` writes for the value `v` of `e`: escaped unless autoescape is off,
+    the expression carries the `safe` filter, the value is marked safe, or it is neither of
+    string kind nor a `fmt.Stringer` (then `String()` is the engine's own text) -/
+def printed (safeFilter autoescape : Bool) (v : V) : Bytes :=
+  if !safeFilter && !v.safe && (v.v.isString || v.v.isStringer) && autoescape then escapeHtml v.v.toS
+  else v.v.toS
 
 /-! ### literal text (`nodeHTML.Execute` with the option handling of `newTemplate`) -/
 
@@ -659,9 +669,7 @@ def execNode : Nat → Node → XM Unit
     | .var e _ => do
       let v ← eval fuel e
       let fr ← cur
-      if !filterApplied b!"safe" fuel e && !v.safe && v.v.isString && fr.autoescape then
-        write (escapeHtml v.v.toS)
-      else write v.v.toS
+      write (printed (filterApplied b!"safe" fuel e) fr.autoescape v)
     | .tagAutoescape on body => do
       let old := (← cur).autoescape
       modifyCur fun f => { f with autoescape := on }
@@ -698,7 +706,8 @@ def execNode : Nat → Node → XM Unit
         | .cycleval _ _ _ => xerr "cycle over a cycle value" .unsupported
         | _ =>
           if asName ≠ [] then modifyCur fun f => { f with priv := f.priv.set asName (.cycleval id v.v v.safe) }
-          if !silent then write v.v.toS
+          if !silent then
+            write (printed (filterApplied b!"safe" fuel (args.getD (idx % args.length) default)) (← cur).autoescape v)
     | .tagExtends => pure ()
     | .tagFilter chain body _ => do
       let out ← buffered (execNodes fuel body)
